@@ -383,6 +383,8 @@ def lstate_build(hist):
     st.model = {}
     st.persisted = {}
     st.error = None
+    st.index_only = False
+    st.disk_index = ()
     for op in hist[1:]:
         lstate_apply(st, op, check=False)
     return st
@@ -425,6 +427,17 @@ def lstate_apply(st, op, check=True):
             if hasattr(sub, "export_indexing"):
                 sub.export_indexing()
             st.persisted = dict(st.model)
+            st.index_only = False
+            st.disk_index = tuple(sorted((repr(k), v) for k, v in getattr(sub, "item_id_to_bundle_id", {}).items()))
+        elif kind == "index":
+            # export-indexing alone (the pipeline does this after every phase): the index file is rewritten while saved
+            # items may still sit in the active bundle.  What a restore from that half-exported workspace returns is not
+            # defined by the statement, so "restore" is disabled until the next full export (see ops()).
+            sub = getattr(st.ld, sub_name)
+            if hasattr(sub, "export_indexing"):
+                sub.export_indexing()
+                st.index_only = True
+                st.disk_index = tuple(sorted((repr(k), v) for k, v in getattr(sub, "item_id_to_bundle_id", {}).items()))
         elif kind == "restore":
             fresh = new_loader(st.ws, *st.cfg)
             sub = getattr(fresh, sub_name)
@@ -434,6 +447,7 @@ def lstate_apply(st, op, check=True):
                 sub.restore()
             st.ld = fresh
             st.model = dict(st.persisted)
+            st.index_only = False
     if kind == "get":
         i = op[1]
         got = read(st.ld, f["get"], f["ids"][i])
@@ -457,6 +471,8 @@ def lstate_apply(st, op, check=True):
             if hasattr(fsub, "restore"):
                 fsub.restore()
         st.persisted = dict(st.model)      # the probe exported the live loader (same effect as export)
+        st.index_only = False
+        st.disk_index = tuple(sorted((repr(k), v) for k, v in getattr(sub, "item_id_to_bundle_id", {}).items()))
         if check:
             for i in (0, 1):
                 got = read(fresh, f["get"], f["ids"][i])
@@ -493,7 +509,7 @@ def lstate_canon(st):
             cached.append("-")
     return (st.fam, st.cfg, tuple(sorted(st.model.items())), tuple(sorted(st.persisted.items())), idx,
             sub.bundle_count, tuple(sorted(repr(k) for k in sub.active_bundle)), lru_keys(sub.item_cache),
-            lru_keys(sub.bundle_cache), hash(repr(cached)))
+            lru_keys(sub.bundle_cache), hash(repr(cached)), st.index_only, st.disk_index)
 
 
 def check_trivial_histories(rep):
@@ -527,8 +543,9 @@ def check_trivial_histories(rep):
 
 def bfs_part(depth, configs, rep):
     fams = _H["families"]
+    quick = common.tier() == "quick"
     _H["trivial"] = check_trivial_histories(rep)
-    mut_ops = [("save", i, t) for i in (0, 1) for t in ("A", "B")] + [("export",), ("restore",)]
+    mut_ops = [("save", i, t) for i in (0, 1) for t in ("A", "B")] + [("export",), ("restore",), ("index",)]
     q_ops = [("get", 0), ("get", 1)]
 
     def build(hist):
@@ -538,7 +555,9 @@ def bfs_part(depth, configs, rep):
         lstate_cleanup(st)
         d = len(hist) - 1
         if d < depth:
-            return mut_ops + q_ops + [("probe_restore",)]
+            # quick tier: the index-only export is explored under the first configuration only
+            return [o for o in mut_ops if not (st.index_only and o == ("restore",))
+                    and not (o == ("index",) and quick and st.cfg != configs[0])] + q_ops + [("probe_restore",)]
         return q_ops + [("probe_restore",)]
 
     def step(st, op):
@@ -589,7 +608,8 @@ def bfs_part(depth, configs, rep):
         base = len(hist) - 1 - plen[hist[0]][tuple(hist[1:1 + 0])] if False else None
         done = len(hist) - 1 - root_len[hist[:root_cut(hist)]]
         if done < d2:
-            return mut_ops + q_ops + [("probe_restore",)]
+            return [o for o in mut_ops if not (st.index_only and o == ("restore",))
+                    and not (o == ("index",) and quick)] + q_ops + [("probe_restore",)]
         return q_ops + [("probe_restore",)]
 
     root_len = {}
